@@ -19,7 +19,7 @@ def make_cases(chk):
     rng = chk.rng
     quick = chk.tier == "quick"
     cases = []
-    ops = ["compose_f_schema", "compose_f_schema", "compose_f_tree", "apply_func", "elim"]
+    ops = ["compose_f_schema", "compose_f_schema", "compose_f_tree", "apply_func", "elim", "remove_axes"]
     for i in range(220 if quick else 16000):
         # every fourth pipeline has predicates with coefficients of 1e3..1e5: there the LP's vertex misses a half-space by more
         # than the absolute 1e-8 of contains(), phase_two has to repair it, and where the repair fails the node legitimately
